@@ -557,7 +557,7 @@ def _semantic_filter(facts, rep, reg, readers):
             continue
         e = expr(du, t["discr"])
         nodes = list(walk(e))
-        uses_filter = any((x[0] == "arg" and tuple(x[2])[-1:] == ("filter",)) or (x[0] == "call" and x[1] in readers) for x in nodes)
+        uses_filter = any((x[0] == "arg" and "filter" in tuple(x[2])) or (x[0] == "call" and x[1] in readers) for x in nodes)
         uses_df = any(df_of_line(x) for x in nodes)
         if uses_filter and uses_df:
             cands.append((bi, t, e))
